@@ -26,7 +26,15 @@ type CacheStorage struct {
 	DB      db.DB      // persisted
 	l       sync.Mutex // lock
 	SealMap *sync.Map
+	relayMu sync.Mutex // serialises "validate a relay, then record its proof" (see LockRelays)
 }
+
+// LockRelays / UnlockRelays bracket the validation of a relay against the stored evidence
+// (uniqueness, allowance, seal) together with the recording of its proof. Without it, concurrent
+// requests all pass the checks before any of them is recorded: the same proof is stored twice,
+// the allowance is exceeded, or one request's read-modify-write of the evidence drops another's.
+func (cs *CacheStorage) LockRelays()   { cs.relayMu.Lock() }
+func (cs *CacheStorage) UnlockRelays() { cs.relayMu.Unlock() }
 
 type CacheObject interface {
 	MarshalObject() ([]byte, error)
@@ -115,16 +123,22 @@ func (cs *CacheStorage) Seal(object CacheObject) (cacheObject CacheObject, isOK 
 		return object, false
 	}
 
-	if cs.IsSealed(object) {
-		return object, true
-	}
-
 	cs.l.Lock()
 	defer cs.l.Unlock()
+	if cs.IsSealedWithoutLock(object) {
+		return object, true
+	}
 	// get the key from the object
 	k, err := object.Key()
 	if err != nil {
 		return object, false
+	}
+	// seal what is stored now: the caller's copy may be older (an iterator snapshot) and must
+	// not replace proofs recorded since it was read
+	if cur, found := cs.GetWithoutLock(k, object); found {
+		if co, ok := cur.(CacheObject); ok {
+			object = co
+		}
 	}
 	// make READONLY
 	cs.SealMap.Store(object.HashString(), struct{}{})
